@@ -79,6 +79,7 @@ var typeMap = map[string][2]string{
 	"time.Timer":  {"vsim", "Timer"},
 	"time.Ticker": {"vsim", "Ticker"},
 	"sync.Map":    {"vsim", "Map"},
+	"sync.Pool":   {"vsim", "Pool"},
 }
 
 // functions that must not be used because no rule exists for them
@@ -391,6 +392,14 @@ func (r *rewriter) rewriteCall(c *astutil.Cursor, n *ast.CallExpr) {
 	case "sync.WaitGroup.Wait":
 		r.use("vsim")
 		c.Replace(callSel("vsim", "WaitGroupWait", r.addrOf(se)))
+	case "sync.WaitGroup.Add":
+		r.use("vsim")
+		c.Replace(callSel("vsim", "WaitGroupAdd", r.addrOf(se), n.Args[0]))
+	case "sync.WaitGroup.Done":
+		r.use("vsim")
+		c.Replace(callSel("vsim", "WaitGroupDone", r.addrOf(se)))
+	case "sync.WaitGroup.Go":
+		fail(r.fset, n.Pos(), "sync.WaitGroup.Go is not supported by the instrumenter")
 	case "sync.Cond.Wait":
 		fail(r.fset, n.Pos(), "sync.Cond.Wait is not supported by the instrumenter")
 	case "google.golang.org/grpc.ClientConn.GetState":
